@@ -7,7 +7,7 @@
 (* Generation (MC*.tla) enumerates steps; validation (Trace.tla) replays    *)
 (* the steps the harness executed on the real code.                         *)
 (***************************************************************************)
-EXTENDS Format, Integers
+EXTENDS Format, Integers, Stacks
 
 CONSTANTS NSlots,      \* number of slots
           Deviations   \* named deviations of the code from the ideal design (DESIGN 4.2)
@@ -15,10 +15,12 @@ CONSTANTS NSlots,      \* number of slots
 VARIABLES slots,       \* [1..NSlots -> value]
           net,         \* sequence of wire messages in flight
           reg,         \* backward rename registry of the (single) process
-          taint        \* [1..NSlots -> [u, s, h]]: words that entered the slot's value through
+          taint,       \* [1..NSlots -> [u, s, h]]: words that entered the slot's value through
                        \* unsafe / safe channels; h: some argument was not regular text
+          procs        \* processes built from different versions of the code (C17):
+                       \* [migs: proc -> rename registry, tys: proc -> linked types, own: slot -> proc]
 
-sysvars == <<slots, net, reg, taint>>
+sysvars == <<slots, net, reg, taint, procs>>
 
 Step(op, dst, src, s, a, parts, n, known) ==
   [op |-> op, dst |-> dst, src |-> src, s |-> s, a |-> a, parts |-> parts, n |-> n, known |-> known]
@@ -144,6 +146,9 @@ Build(st, sl, rg) ==
     \* ---- decoding of faulty / arbitrary wire messages (C05): the result is some
     \* non-nil error; its contents are not predicted
     [] st.op \in {"DecodeFault", "DecodeFuzz"} -> V("decoded", <<>>, st.a, <<>>, <<>>)
+    \* ---- a stack-capturing / domain-computing API function called through the
+    \* helper frames with depth st.n (C16); the value itself is not predicted
+    [] st.op = "StackCall" -> V("decoded", <<>>, <<>>, <<>>, <<>>)
     [] st.op = "Copy"       -> e
     [] st.op = "Clear"      -> Nil
 
@@ -226,7 +231,7 @@ ExtraS(st, sl, tn) ==
   \cup (IF st.op = "WithSafeDetails" THEN UNION {tn[i].s : i \in PartRefs(st.parts)} ELSE {})
 
 TaintOf(st, sl, tn, res) ==
-  IF IsNil(res) \/ st.op \in {"Clear", "DecodeFault", "DecodeFuzz"} THEN NoTaint
+  IF IsNil(res) \/ st.op \in {"Clear", "DecodeFault", "DecodeFuzz", "StackCall"} THEN NoTaint
   ELSE LET src == Sources(st) IN
        [u |-> StepU(st, sl) \cup UNION {tn[i].u : i \in src},
         s |-> StepS(st) \cup ExtraS(st, sl, tn) \cup UNION {tn[i].s : i \in src},
@@ -244,7 +249,7 @@ ConstructorOps ==
    "HandleAsAssertionFailure", "NewAssertionErrorWithWrappedErrf", "WrapWithHTTPCode",
    "WrapWithGrpcCode", "GoWrap", "PkgWithMessage", "PkgWithStack", "PkgWrap", "OsPathError",
    "OsLinkError", "OsSyscallError", "UWrap", "Join", "JoinPkg", "GoJoin", "GoWrap2", "Hop",
-   "Copy", "Clear", "DecodeFault", "DecodeFuzz"}
+   "Copy", "Clear", "DecodeFault", "DecodeFuzz", "StackCall"}
 
 \* A step is well-formed for the current state (enabling condition).
 Enabled(st, sl) ==
@@ -255,18 +260,84 @@ Enabled(st, sl) ==
   /\ st.op \in {"GoWrap", "OsPathError", "OsLinkError", "OsSyscallError", "UWrap", "GoWrap2"}
         => \A i \in 1..Len(st.src) : ~IsNil(sl[st.src[i]])
 
+---------------------------------------------------------------------------
+(* Type renames across code versions (errbase/migrations.go, C17).          *)
+(* A process is a build of the program: it links some Go types of a renamed *)
+(* lineage (uRenA was renamed uRenB, ...) and has registered renames.       *)
+
+NProcs == 3
+NoProcs == [migs |-> [p \in 1..NProcs |-> <<>>], tys |-> [p \in 1..NProcs |-> {}],
+            own |-> [i \in 1..NSlots |-> 0]]
+
+\* errbase.RegisterTypeMigration(prev, new): result [panic, tbl]
+RegisterMigration(tbl, prev, new, D) ==
+  IF new \in DOMAIN tbl THEN [panic |-> TRUE, tbl |-> tbl]
+  ELSE LET \* the original name: prev may itself be a renamed type
+           root == IF "MigrationNoPrevLookup" \notin D /\ prev \in DOMAIN tbl THEN tbl[prev] ELSE prev
+           t1 == [k \in DOMAIN tbl \cup {new} |-> IF k = new THEN root ELSE tbl[k]]
+       IN [panic |-> FALSE,
+           \* renames registered earlier that pointed to `new` are forwarded
+           tbl |-> [k \in DOMAIN t1 |-> IF t1[k] = new THEN root ELSE t1[k]]]
+
+FamP(ty, tbl) == IF ty \in DOMAIN tbl THEN tbl[ty] ELSE ty
+
+\* transfer of a lineage leaf from process p to process q
+XferV(v, p, q, pr) ==
+  LET fam == IF v.ty = "opaqueLeaf" THEN v.o.fam ELSE FamP(v.ty, pr.migs[p])
+      local == {t \in pr.tys[q] : FamP(t, pr.migs[q]) = fam}
+  IN IF local # {} THEN V(CHOOSE t \in local : TRUE, v.s, <<>>, <<>>, <<>>)
+     ELSE [V("opaqueLeaf", v.s, <<>>, <<>>, <<>>) EXCEPT !.o = [NoO EXCEPT !.fam = fam, !.tn = fam, !.msg = v.s]]
+
+\* the family name a value shows in process p (errbase.GetTypeKey)
+FamIn(v, p, pr) == IF v.ty = "opaqueLeaf" THEN v.o.fam ELSE FamP(v.ty, pr.migs[p])
+\* Is between two lineage leaves held by the same process: same family, same message
+IsIn(e, r, p, pr) == ~IsNil(e) /\ ~IsNil(r) /\ FamIn(e, p, pr) = FamIn(r, p, pr) /\ e.s = r.s
+
+MigOps == {"ProcInit", "RegMig", "MkLocal", "Xfer", "Probe"}
+
+\* Effect of a migration-family step on (slots, procs); st.n is the process
+\* (Xfer: 10 * from + to).  ok = enabling condition; panic = RegMig rejected.
+MigApply(st, sl, pr) ==
+  CASE st.op = "ProcInit" ->
+         [sl |-> sl, pr |-> [pr EXCEPT !.tys[st.n] = SeqToSet(st.s), !.migs[st.n] = <<>>], ok |-> TRUE, panic |-> FALSE]
+    [] st.op = "RegMig" ->
+         LET r == RegisterMigration(pr.migs[st.n], st.s[1], st.s[2], Deviations) IN
+         [sl |-> sl, pr |-> [pr EXCEPT !.migs[st.n] = r.tbl], ok |-> TRUE, panic |-> r.panic]
+    [] st.op = "MkLocal" ->
+         [sl |-> [sl EXCEPT ![st.dst] = V(st.a[1][1], st.s, <<>>, <<>>, <<>>)],
+          pr |-> [pr EXCEPT !.own[st.dst] = st.n], ok |-> st.a[1][1] \in pr.tys[st.n], panic |-> FALSE]
+    [] st.op = "Xfer" ->
+         LET p == st.n \div 10  q == st.n % 10 IN
+         [sl |-> [sl EXCEPT ![st.dst] = XferV(sl[st.src[1]], p, q, pr)],
+          pr |-> [pr EXCEPT !.own[st.dst] = q],
+          ok |-> pr.own[st.src[1]] = p /\ ~IsNil(sl[st.src[1]]), panic |-> FALSE]
+    [] st.op = "Probe" -> [sl |-> sl, pr |-> pr, ok |-> ~IsNil(sl[st.dst]), panic |-> FALSE]
+
+DoMig(st) ==
+  LET r == MigApply(st, slots, procs) IN
+  /\ st.op \in MigOps /\ r.ok
+  /\ slots' = r.sl /\ procs' = r.pr
+  /\ UNCHANGED <<net, reg, taint>>
+
+\* what the harness observes of slot i in its owner process
+MigObs(i, sl, pr) ==
+  LET p == pr.own[i] v == sl[i] IN
+  [ty |-> v.ty, fam |-> FamIn(v, p, pr),
+   is |-> [j \in 1..NSlots |-> IF pr.own[j] = p /\ ~IsNil(sl[j]) THEN B2S(IsIn(v, sl[j], p, pr)) ELSE "-"]]
+
 Init ==
   /\ slots = [i \in 1..NSlots |-> Nil]
   /\ net = <<>>
   /\ reg = <<>>
   /\ taint = [i \in 1..NSlots |-> NoTaint]
+  /\ procs = NoProcs
 
 \* the one action schema: perform step st
 Do(st) ==
   /\ Enabled(st, slots)
   /\ slots' = [slots EXCEPT ![st.dst] = Build(st, slots, reg)]
   /\ taint' = [taint EXCEPT ![st.dst] = TaintOf(st, slots, taint, Build(st, slots, reg))]
-  /\ UNCHANGED <<net, reg>>
+  /\ UNCHANGED <<net, reg, procs>>
 
 ---------------------------------------------------------------------------
 (* The projection Obs(v): what the harness records from the real value.    *)
